@@ -230,7 +230,24 @@ def run_scenario(sc):
                             res["stop"] = {"t": loop.time() - t0, "returned": True}
                         except asyncio.TimeoutError:
                             res["stop"] = {"t": loop.time() - t0, "returned": False}
+                        except asyncio.CancelledError:
+                            # stop() itself raised CancelledError (nobody cancelled this actor)
+                            res["stop"] = {"t": loop.time() - t0, "returned": True, "raised": "CancelledError"}
+                            res["errors"].append({"t": loop.time(), "op": "stop", "exc": "CancelledError"})
                         net.ev("stop_ret", c=name, took=res["stop"]["t"], returned=res["stop"]["returned"])
+                        # what is left right after stop() returned (before any later API call)
+                        for _ in range(5):
+                            await asyncio.sleep(0)
+                        await asyncio.sleep(0.001)
+                        others_active = any(k != name and v.get("stop") is None and not v.get("killed")
+                                            and k in consumers for k, v in results.items())
+                        if not others_active:
+                            res["left_after_stop"] = {
+                                "tasks": sorted({getattr(t.get_coro(), "__qualname__", str(t.get_coro()))
+                                                 for t in asyncio.all_tasks(loop)
+                                                 if not t.done() and t is not asyncio.current_task()
+                                                 and getattr(t.get_coro(), "__qualname__", "") not in ("run_scenario.<locals>.scenario", "run_scenario.<locals>.scenario.<locals>.actor")}),
+                                "transports": len(net.open_transports)}
                         # later API calls must fail (probed only when asked: C19)
                         later = {}
                         for nm, call in [] if not (len(op) > 2 and op[2]) else (("getone", lambda: c.getone()), ("getmany", lambda: c.getmany(timeout_ms=10)),
